@@ -208,7 +208,9 @@ theorem C07_max_steps_loop (fuel : Nat) (r : RState α) (hr : r.status = .runnin
 
 end MaxSteps
 
-/-! ### the hypotheses are satisfiable: the generated defaults are legal -/
+/-! ### the hypotheses are satisfiable: an ordered `Ops ℚ`; the generated defaults are legal -/
+
+example : OrderedOps ratOps := ratOps_ordered
 
 /-- `RosenbrockSolverParameters` with the member defaults of the header and the table `t` -/
 def defaultParams (t : Gen.RosTable) : RosParams ℚ where
